@@ -129,6 +129,14 @@ class FormulaGen:
         if not alts:
             return None
         alt = list(r.choice(alts))
+        if r.random() < 0.3:
+            # expand one nonterminal of the alternative one level deeper (the match expression then describes a
+            # tree of depth 2 below the matched node)
+            idx = [i for i, sym in enumerate(alt) if sym in self.c and any(self.c[sym])]
+            if idx:
+                i = r.choice(idx)
+                sub = [a for a in self.c[alt[i]] if a]
+                alt[i : i + 1] = list(r.choice(sub))
         parts, bound = [], []
         for sym in alt:
             if sym in self.c:
@@ -169,6 +177,8 @@ class FormulaGen:
         inv, inty = r.choice(scope)
         cands = [t for t in self.nts if t in self.reach.get(inty, set())] or self.nts
         ty = r.choice(cands) if r.random() < 0.9 else r.choice(self.nts)
+        if inty not in self.nts and inty in self.c and r.random() < 0.08:
+            ty = inty  # a quantifier over the symbol of the tree it ranges over (the root itself is in the domain)
         v = self.fresh()
         kind = r.choice(["forall", "exists"])
         if self.allow_mexpr and r.random() < 0.3:
